@@ -127,6 +127,11 @@ def run_history(case):
                         lst.append(Token("junk", 1 << 1))
                     elif arg == "replace" and lst:
                         lst[0] = Token("9", 1 << 0)
+                    elif arg == "mutate" and lst:
+                        # edit the Token objects found in the list (value / type are public attributes)
+                        for tk in lst[:2]:
+                            tk.value = "7"
+                            tk.type = 1 << 0
                 except Exception:  # noqa
                     pass
             steps.append({"op": "edit", "t": 0, "res": 0, "lid": 0, "m": 0})
@@ -157,7 +162,7 @@ def run_history(case):
     return {"texts": tinfo, "steps": steps, "nvals": len(vals), "vals_sample": vals[:3]}
 
 
-OPS_EDIT = ["pop", "drain", "append", "replace", "first_pop"]
+OPS_EDIT = ["pop", "drain", "append", "replace", "first_pop", "mutate"]
 
 
 def alphabet(ntexts):
@@ -262,14 +267,14 @@ def domain(ctx, focus):
 def run_family(ctx, cases, prop, focus="history"):
     res = Result()
     if cases is None:
-        for cfg, expect in (("good", None), ("nocopy", "violated"), ("noreset", "violated"), ("keeptokens", "violated")):
+        for cfg, expect in (("good", None), ("nocopy", "violated"), ("noreset", "violated"), ("keeptokens", "violated"), ("sharedtokens", "violated")):
             r = tlc.run("MC_ParserObject", "MC_ParserObject_%s.cfg" % cfg, ctx.work, workers=4, timeout=900)
             res.add_tlc(r, "model " + cfg)
             if expect is None and not r.ok():
                 raise tlc.TLCError("ParserObject model violates %s\n%s" % (r.violated, r.out[-1500:]))
             if expect and r.ok():
                 raise tlc.TLCError("vacuity: ParserObject variant %s should violate HistoryFree/CacheIntact but does not" % cfg)
-        res.extra["model_variants"] = "good: holds; CopyOnReturn=FALSE, ResetCursor=FALSE and ClearDropsTokens=FALSE each violate (non-vacuity)"
+        res.extra["model_variants"] = "good: holds; CopyOnReturn=FALSE, ResetCursor=FALSE, ClearDropsTokens=FALSE and CopyTokens=FALSE each violate (non-vacuity)"
         cases, res.rule = domain(ctx, focus)
         res.exhaustive = True
     else:
